@@ -185,6 +185,8 @@ def scenarios(tier, seed):
                 ('declared float then typed int assignment', 'a float m\na int = {k} km'), ('declared str then typed bool assignment', 'n str\nn bool = false'),
                 ('declared int then typed float assignment', 'k int\nk float = {x}'), ('declared nested float then typed int assignment', 'g\n  a float m\ng.a int = {k} m'),
                 ('declared float array then typed int array', 'v float[2] m\nv int[2] = [1,2]'), ('declared bool then typed int assignment', 'b bool\nb int = {k}'),
+                ('constant node assigned none', 'a float = {x} m\n  !constant\na = none'), ('constant bool assigned none (typed)', 'b bool = true\n  !constant\nb bool = none'),
+                ('constant nested int assigned none', 'g\n  k int = {k}\n    !constant\ng.k = none'), ('constant str assigned none', 's str = x\n  !constant\ns = none'),
                 ('modification of an undefined node', 'a = {x} m'), ('unit on a boolean', 'b bool = true m'), ('bool assigned a number', 'b bool = {k}')]
     accepted = [('declaration then typed value of the same type in another prefix', 'a float m\na float = {x} km'), ('declaration then value', 'a float m\na = {x}'), ('declaration then value in another prefix', 'a float m\na = {x} cm'),
                 ('constant never modified', 'a float = {x} m\n  !constant\nb float = {y} m'), ('typed modification of the same type', 'a float = {x} m\na float = {y} m')]
